@@ -25,6 +25,11 @@ Str(s, len, ascii, b64) == [k |-> "str", s |-> s, len |-> len, ascii |-> ascii, 
 Bool(b) == [k |-> "bool", b |-> b]
 \* the non-finite numbers a JSON decoder may hand over: the tokens NaN, Infinity, -Infinity and a literal
 \* like 1e999 ("huge", which becomes +infinity).  They are numbers by kind and members of no value set.
+\* integers beyond 2^53 (where a detour through a float loses the last bits): symbolic atoms, Big(i) stands for the
+\* i-th entry of gamma's table 0, 1, 5, 2^53-1, 2^53, 2^53+1, 2^53+3, 2^55-1, 2^55, 2^55+1, 2^55+3, 2^56, 2^56+1
+\* (order preserving; an int datainfo with the field "big" has its lo / hi in these indices)
+Big(i) == [k |-> "big", n |-> i]
+IsInt(p) == p.k \in {"num", "big"}
 Special(s) == [k |-> "special", s |-> s]
 Specials == {Special("nan"), Special("pinf"), Special("ninf"), Special("huge")}
 Null    == [k |-> "null"]                 \* no payload on the request line
@@ -36,7 +41,7 @@ Obj(kv) == [k |-> "obj", kv |-> kv]        \* kv: sequence of [key |-> name, val
 KV(key, val) == [key |-> key, val |-> val]
 
 IsNumber(p) == p.k \in {"num", "eps", "frac"}
-Key(p) == 4 * p.n + (CASE p.k = "num" -> 0 [] p.k = "eps" -> 1 [] p.k = "frac" -> 2)   \* order of numbers
+Key(p) == 4 * p.n + (CASE p.k \in {"num", "big"} -> 0 [] p.k = "eps" -> 1 [] p.k = "frac" -> 2)   \* order of numbers
 
 SeqSet(s) == {s[i] : i \in 1 .. Len(s)}
 InSeq(x, s) == \E i \in 1 .. Len(s) : s[i] = x
@@ -80,7 +85,7 @@ Validate(dt, p, prev) ==
          ELSE IF p = Eps(dt.hi) THEN Ok(Num(dt.hi))        \* inside the tolerance: clamped
          ELSE Bad(RE)
     [] dt.t \in {"int", "scaled"} ->
-         IF p.k = "num" THEN (IF dt.lo <= p.n /\ p.n <= dt.hi THEN Ok(p) ELSE Bad(RE))
+         IF IsInt(p) THEN (IF dt.lo <= p.n /\ p.n <= dt.hi THEN Ok(p) ELSE Bad(RE))     \* exactly the integer offered
          ELSE IF IsNumber(p) THEN Bad(BV)                   \* a fraction is no integer
          ELSE Bad(WT)
     [] dt.t = "enum" ->
@@ -151,7 +156,7 @@ Validate(dt, p, prev) ==
 RECURSIVE InDatainfo(_, _)
 InDatainfo(dt, v) ==
   CASE dt.t = "double" -> IsNumber(v) /\ 4 * dt.lo <= Key(v) /\ Key(v) <= 4 * dt.hi
-    [] dt.t \in {"int", "scaled"} -> v.k = "num" /\ dt.lo <= v.n /\ v.n <= dt.hi
+    [] dt.t \in {"int", "scaled"} -> IsInt(v) /\ dt.lo <= v.n /\ v.n <= dt.hi
     [] dt.t = "blob"   -> v.k = "str" /\ v.b64 >= dt.minb /\ v.b64 <= dt.maxb
     [] dt.t = "limits" -> v.k = "list" /\ Len(v.xs) = 2 /\ InDatainfo(dt.el, v.xs[1]) /\ InDatainfo(dt.el, v.xs[2])
                           /\ Key(v.xs[1]) <= Key(v.xs[2])
@@ -263,7 +268,7 @@ WithErr(out, op, m, a) == [out EXCEPT !.err = op, !.errm = m, !.erra = a]
 RECURSIVE Converts(_, _)
 Converts(dt, v) ==
   CASE dt.t = "double" -> IsNumber(v)
-    [] dt.t \in {"int", "scaled"} -> v.k = "num"
+    [] dt.t \in {"int", "scaled"} -> IsInt(v)
     [] dt.t = "enum"   -> v.k = "num" /\ \E i \in 1 .. Len(dt.mem) : dt.mem[i].val = v.n
     [] dt.t = "string" -> v.k = "str" /\ dt.minc <= v.len /\ v.len <= dt.maxc /\ (dt.utf8 \/ v.ascii)
     [] dt.t = "bool"   -> v.k = "bool"
@@ -504,8 +509,11 @@ StX(x) == Obj(<<KV("x", x)>>)
 
 (* payload catalogue of a datainfo: valid, at the limits, outside the datainfo range,    *)
 (* inside the tolerance, wrong kind, partial / superfluous / missing struct members, ...  *)
+BigCat == {Big(0), Big(3), Big(4), Big(5), Big(6), Big(8), Big(9), Big(10), Big(11), Big(12), SAb, Null}
+BigLimCat == {Big(4), Big(8), Big(12), SAb}
 Cat(dt) ==
-  CASE dt.t = "double" -> {Num(dt.lo - 1), Num(dt.lo), Num(3), Num(5), Num(dt.hi), Num(dt.hi + 1),
+  CASE "big" \in DOMAIN dt -> BigCat
+    [] dt.t = "double" -> {Num(dt.lo - 1), Num(dt.lo), Num(3), Num(5), Num(dt.hi), Num(dt.hi + 1),
                            Eps(dt.hi), Frac(2), SAb, Null, List(<<Num(1)>>)} \cup Specials
     [] dt.t \in {"int", "scaled"} -> {Num(dt.lo - 1), Num(dt.lo), Num(3), Num(5), Num(dt.hi), Num(dt.hi + 1),
                         Frac(2), SAb, Null, List(<<Num(1)>>), Special("nan"), Special("pinf")}
@@ -675,6 +683,15 @@ ShapeR(k) ==
     [] k = "bl" -> [m |-> [pa |-> ParR("_pa", DTbl, [maxb |-> 5], SB(4)), pb |-> ParR("_pb", DTbl, [maxb |-> 5], SB(3))]]
     [] k = "sc" -> [m |-> [pa |-> [ParR("_pa", DTsc, [scale2 |-> TRUE], Num(5)) EXCEPT !.init = Num(4)],     \* (the default lies
                            pb |-> [ParR("_pb", DTsc, [scale2 |-> TRUE], Num(4)) EXCEPT !.init = Num(4)]]]    \*  on the class grid)
+(* G: integers with wide limits: IntRange(0, 2^53) and IntRange(0, 2^56) with a dynamic upper limit.  One above the  *)
+(* maximum / the limit is refused, and the driver receives exactly the integer requested (2^53+1 is not 2^53).       *)
+DTg53 == [t |-> "int", lo |-> 0, hi |-> 4, big |-> TRUE]
+DTg56 == [t |-> "int", lo |-> 0, hi |-> 11, big |-> TRUE]
+BigPar(wire, dt, lim, hooks, drv) == [Par(wire, dt, FALSE, Null, lim, hooks, drv) EXCEPT !.init = Big(1), !.ret = Big(3), !.rret = Big(3)]
+ShapeG(n) ==
+  IF n = 1 THEN [m |-> [pa |-> BigPar("_pa", DTg53, NoLim, <<>>, "none"), ca |-> Cmd("_ca", DTg53, Null)]]
+  ELSE [m |-> [target |-> BigPar("target", DTg56, [kind |-> "minmax", lo |-> "", hi |-> "target_max"], <<[at |-> "LIMIT"]>>, "same"),
+               target_max |-> LimPar("target_max", DTg56, Big(11), "X")]]
 (* D: a hook on a struct sees the merged value *)
 ShapeD == [m |-> [pa |-> Par("_pa", DTst, FALSE, Null, NoLim,
                              <<[at |-> "D", raise |-> <<St(Num(5), Num(2))>>, stop |-> <<>>]>>, "none")]]
@@ -687,6 +704,7 @@ IdsOf(fam) ==
     [] fam = "E" -> {<<"E", n>> : n \in 1 .. 5}
     [] fam = "E0" -> {<<"E", 1>>, <<"E", 2>>}
     [] fam = "K" -> {<<"K", "sc">>, <<"K", "bl">>} \cup {<<"Kc", d>> : d \in DOMAIN ConstCase}
+    [] fam = "G" -> {<<"G", 1>>, <<"G", 2>>}
     [] fam = "R" -> {<<"R", k>> : k \in {"s", "a", "bl", "sc"}}
     [] fam = "K0" -> {<<"K", "sc">>, <<"Kc", "i0">>, <<"Kc", "e0">>, <<"Kc", "f5">>}
     [] fam = "C1" -> {<<"C", "f", "minmax", "h0", "none", "X">>, <<"C", "f", "minmax", "h1", "none", "X">>,
@@ -712,6 +730,7 @@ ShapeOf(id) ==
     [] id[1] = "K" -> ShapeK(id[2])
     [] id[1] = "Kc" -> ShapeKc(id[2])
     [] id[1] = "R" -> ShapeR(id[2])
+    [] id[1] = "G" -> ShapeG(id[2])
 
 Req(act, mod, name, payload) == [act |-> act, mod |-> mod, name |-> name, payload |-> payload]
 (* requests: for every accessible every payload of its catalogue under its wire name (or  *)
@@ -721,7 +740,8 @@ AccReqs(sh, m, a) ==
   LET acc == sh[m][a]
       nm == IF acc.wire = "" THEN a ELSE acc.wire
   IN IF acc.kind = "param"
-     THEN {Req("change", m, nm, p) : p \in (IF acc.islimit /\ acc.dt.t # "limits" THEN LimCat
+     THEN {Req("change", m, nm, p) : p \in (IF acc.islimit /\ "big" \in DOMAIN acc.dt THEN BigLimCat
+                                            ELSE IF acc.islimit /\ acc.dt.t # "limits" THEN LimCat
                                             ELSE IF acc.ro \/ acc.wire = "" \/ "short" \in DOMAIN acc THEN Short(acc.dt)
                                             ELSE Cat(acc.dt))}
           \cup {Req("do", m, nm, Null)}
@@ -752,7 +772,10 @@ ReqsOf(sh) ==
   \cup {Req(act, "m", nm, IF act = "change" THEN Num(3) ELSE Null) :
           act \in {"change", "read", "do", "activate"}, nm \in {"nope", "_popt", "_copt", "_prem"}}
   \* the bare module specifier: target for change, value for read
-  \cup {Req("change", m, "", p) : m \in DOMAIN sh, p \in {Num(3), Num(9), SAb}} \cup {Req("read", m, "", Null) : m \in DOMAIN sh}
+  \cup UNION {{Req("change", m, "", p) : p \in (IF \E a \in DOMAIN sh[m] : sh[m][a].wire = "target" /\ sh[m][a].kind = "param"
+                                                                            /\ "big" \in DOMAIN sh[m][a].dt
+                                                    THEN {Big(3), Big(12), SAb} ELSE {Num(3), Num(9), SAb})} : m \in DOMAIN sh}
+  \cup {Req("read", m, "", Null) : m \in DOMAIN sh}
 
 CONSTANT Families
 Init == \E id \in ShapeIds(Families) : InitWith(ShapeOf(id))
